@@ -231,7 +231,7 @@ func (r *relay) processFrame(f http2.Frame) error {
 		if !f.HeadersEnded() {
 			r.headerBuffer.Reset()
 			r.headerBuffer.Write(f.HeaderBlockFragment())
-			r.continuationState = &headerContinuation{f.Priority}
+			r.continuationState = &headerContinuation{f.Priority, f.StreamEnded()}
 		} else {
 			var headers []hpack.HeaderField
 			headers, err = r.decodeFull(f.HeaderBlockFragment())
@@ -585,10 +585,12 @@ type continuationState interface {
 
 type headerContinuation struct {
 	priority http2.PriorityParam
+	// endStream is the END_STREAM flag of the HEADERS frame that started the header block.
+	endStream bool
 }
 
 func (h *headerContinuation) complete(s Processor, headers []hpack.HeaderField) error {
-	return s.Header(headers, true, h.priority)
+	return s.Header(headers, h.endStream, h.priority)
 }
 
 type pushPromiseContinuation struct {
